@@ -45,6 +45,8 @@ def fresh_like(I, v, base='hv'):
         return z3.Const(sym.fresh_name(base), v.sort())       # raw ghost term (e.g. a relation kept as an array)
     if isinstance(v, sym.VFrame):
         return sym.VFrame(z3.Const(sym.fresh_name(base), v.t.sort()), v.tag)
+    if hasattr(v, 'fresh_like'):
+        return v.fresh_like(base)             # value classes defined by a contract module (e.g. key-indexed pandas objects)
     if isinstance(v, sym.VSet):
         c = I.st.heap[v.loc]
         I.st.heap[v.loc] = c.replace(member=z3.Const(sym.fresh_name(base), c.member.sort()),
